@@ -289,6 +289,7 @@ combine_strategy = st.integers(2, 7).flatmap(lambda D: st.fixed_dictionaries({
     "inc_poly": st.lists(prim_for(D, poly_generic), max_size=1),
     "exc_poly": st.lists(prim_for(D, poly_generic), max_size=1),
     "intersect_with": st.lists(prim_for(D), max_size=2),
+    "cli": st.sampled_from([False, False, True]),
 }))
 
 
@@ -300,6 +301,13 @@ def check_combine(c):
     from vlib import regionlib as rl
     res = Res()
     D = c["D"]
+    if c.get("cli"):
+        # the command line takes plain decimal numbers (argparse reads '-1e-05' as an option): round the circle
+        # parameters to 6 decimals up front so that container, model and argv all carry exactly the same values; polygons
+        # (whose vertices are computed) are left to the library route
+        def r6(p):
+            return dict(p, ra=round(p["ra"], 6), dec=round(p["dec"], 6), r=round(max(p["r"], 1e-5), 6))
+        c = dict(c, inc_circ=[r6(p) for p in c["inc_circ"]], exc_circ=[r6(p) for p in c["exc_circ"]], inc_poly=[], exc_poly=[])
     d = tempfile.mkdtemp(prefix="c08c_")
     try:
         cont = MIMAS.Dummy(maxdepth=D)
@@ -339,7 +347,32 @@ def check_combine(c):
                 raise
             res.ambiguous += 1          # healpy rejected a polygon on the model side
             return res
-        region = MIMAS.combine_regions(cont)
+        if c.get("cli"):
+            # the same container through the MIMAS command line
+            from AegeanTools.CLI import MIMAS as mimas_cli
+            from AegeanTools.regions import Region
+            out = os.path.join(d, "cli_out.mim")
+            argv = ["-o", out, "-depth", str(D)]
+            for r_ in cont.add_region:
+                argv += ["+r", r_[0]]
+            for r_ in cont.rem_region:
+                argv += ["-r", r_[0]]
+            for cc in cont.include_circles:
+                argv += ["+c"] + ["%.10f" % float(v) for v in cc]
+            for cc in cont.exclude_circles:
+                argv += ["-c"] + ["%.10f" % float(v) for v in cc]
+            for pp in cont.include_polygons:
+                argv += ["+p"] + [repr(float(v)) for v in pp]
+            for pp in cont.exclude_polygons:
+                argv += ["-p"] + [repr(float(v)) for v in pp]
+            rc = mimas_cli.main(argv)
+            if rc not in (0, None) or not os.path.exists(out):
+                res.bad("cli-combine-run", "MIMAS %s returned %r, output exists=%s" % (" ".join(argv[:8]), rc, os.path.exists(out)))
+                return res
+            region = Region.load(out)
+            res.label("combine-via-cli")
+        else:
+            region = MIMAS.combine_regions(cont)
         for clause, detail in rl.inspect(region, model, D, tag="combine_regions: "):
             res.bad("combine-" + clause, detail)
         if c["intersect_with"] and not res.violations:
